@@ -51,12 +51,14 @@ Concat   == \E ra \in Live, rb \in Live : Alloc("r3", ConcatT(T(ra), T(rb)), [op
 AddRec   == \E r \in Live, rec \in {<<<<"a", V2>>>>, <<<<"c", VX>>, <<"a", None>>>>} :
                Alloc(NextReg(r), ConcatT(T(r), RecordT(rec)), [op |-> "AddRecord", r |-> r, rd |-> NextReg(r), rec |-> rec])
 Copy     == \E r \in Live : Alloc(NextReg(r), Ok(T(r)), [op |-> "Copy", r |-> r, rd |-> NextReg(r)])
+\* filters without any condition return the whole table - as a new object (inc() / exc(), see C06)
+NoFilter == \E r \in Live, f \in {"inc", "exc"} : Alloc(NextReg(r), Ok(T(r)), [op |-> "NoFilter", r |-> r, rd |-> NextReg(r), f |-> f])
 \* named deviations: these two calls return their operand itself, not a new table
 AddNone  == \E r \in Live : Alias(NextReg(r), r, [op |-> "AddNone", r |-> r, rd |-> NextReg(r)])
 ConcatOne == \E r \in Live : Alias(NextReg(r), r, [op |-> "ConcatOne", r |-> r, rd |-> NextReg(r)])
 
 Init == heap = <<>> /\ reg = [r \in Regs |-> 0] /\ out = "ok" /\ hist = <<>>
-Next == New \/ SetCol \/ DelCol \/ Update \/ Slice \/ Mask \/ Take \/ Project \/ Derive \/ Do \/ Rename \/ Concat \/ AddRec \/ Copy \/ AddNone \/ ConcatOne
+Next == New \/ SetCol \/ DelCol \/ Update \/ Slice \/ Mask \/ Take \/ Project \/ Derive \/ Do \/ Rename \/ Concat \/ AddRec \/ Copy \/ NoFilter \/ AddNone \/ ConcatOne
 Bound == Len(hist) <= MaxDepth /\ \A o \in 1..Len(heap) : Len(heap[o].rows) <= MaxRowsC
 View == <<heap, reg, out>>
 
